@@ -108,7 +108,7 @@ def main():
     if entries:
         i, h, ops, hr = entries[len(entries) // 2]
         chk.sample({"schema": S.to_prophy(cases[i][2]), "history": ops[:4], "observed": [s.get("exc") for s in hr["steps"][:4]]})
-    return chk.finish(level="exploration")
+    return chk.finish(level="proof")
 
 
 if __name__ == "__main__":
